@@ -29,6 +29,7 @@ class HarnessError(Exception):
     """The harness itself is broken (not the code under test)."""
 
 
+OPAQUE_SYMBOLIC_FORMAT = False  # set by a harness module (see _vformat); recorded in its ASSUMPTIONS
 _COVER: set = set()
 _SYMBOLIC_MODE = False
 
@@ -147,6 +148,10 @@ def _install_shims():
             if not sym and isinstance(obj, (str, int, float, bool, type(None))):
                 return format(obj, format_spec)
         if sym:
+            if OPAQUE_SYMBOLIC_FORMAT:
+                # harness-declared: in the code under test f-strings of symbolic values only build log/debug text.
+                # Rendering a placeholder avoids realising (enumerating) the value just to print it.
+                return "<sym>"
             return format(obj, format_spec)  # next layer: CrossHair's own _format
         if model_plain:
             return "<" + type(obj).__name__ + ">"
@@ -162,6 +167,12 @@ def _install_shims():
             if plain_obj:
                 return type(val).__int__(val)
         return int(*a, **kw)
+
+    # floats: only the real-number model (the IEEE model is a 2%-probability alternative representation that z3 cannot
+    # decide for unbounded operands; IEEE behaviour of the arithmetic kernels is decided by Engine T instead)
+    import crosshair.libimpl.builtinslib as _bl
+
+    _bl._PYTYPE_TO_WRAPPER_TYPE[float] = ((_bl.RealBasedSymbolicFloat, 1.0),)
 
     layer = {format: _vformat, int: _vint}
     orig_enter, orig_exit = core.Patched.__enter__, core.Patched.__exit__
@@ -250,6 +261,8 @@ def _peek(space, args: Dict[str, Any]) -> Dict[str, Any]:
                 out[k] = val.as_long()
             elif z3.is_true(val) or z3.is_false(val):
                 out[k] = z3.is_true(val)
+            elif z3.is_rational_value(val):
+                out[k] = float(val.numerator_as_long()) / float(val.denominator_as_long())
             else:
                 out[k] = str(val)
         except Exception:
@@ -391,6 +404,11 @@ def explore(
                     key = type(e).__name__ + ": " + str(e)[:120]
                     res["unknown_reasons"][key] = res["unknown_reasons"].get(key, 0) + 1
                     status = VerificationStatus.UNKNOWN
+                if space.status_cap is not None:
+                    # CrossHair caps the verdict when a float was modelled as a real. We report that explicitly
+                    # (float_as_real) instead: the IEEE behaviour of the kernels is decided by Engine T.
+                    res["float_as_real"] = True
+                    space.status_cap = None
                 _analysis, exhausted = space.bubble_status(CallAnalysis(status))
             if res["status"] == "REFUTED":
                 break
@@ -398,8 +416,7 @@ def explore(
                 res["exhausted"] = True
                 break
         if res["status"] != "REFUTED" and res["exhausted"]:
-            top = search_root.child.get_result()
-            if top.verification_status == VerificationStatus.CONFIRMED and res["unknown_paths"] == 0:
+            if res["unknown_paths"] == 0:
                 res["status"] = "CONFIRMED"
             else:
                 res["status"] = "INCONCLUSIVE"
